@@ -944,7 +944,8 @@ func remove(v string, l []string) []string {
 	for i, w := range l {
 		if v == w {
 			l = append(l[:i], l[i+1:]...)
-			return l
+			// the list may name v more than once
+			return remove(v, l)
 		}
 	}
 	return l
